@@ -1,6 +1,7 @@
 package main
 
 import (
+	"strings"
 	"context"
 	"fmt"
 	"sort"
@@ -251,7 +252,10 @@ func TestVerifC26(t *testing.T) {
 			errPoints := 0
 			for k := 1; k < 60 && !r.Failed(); k++ {
 				fired := false
-				for _, fk := range []string{"errafter", "errbefore"} {
+				for _, fk := range []string{"errafter", "errbefore", "sticky-save", "sticky-remove"} {
+					if strings.HasPrefix(fk, "sticky") && k > 3 {
+						continue
+					}
 					w.store.Restore(s0)
 					w.snaps = map[string]*snapModel{}
 					for id, v := range snaps0 {
@@ -259,6 +263,13 @@ func TestVerifC26(t *testing.T) {
 					}
 					w.forcedFired = 0
 					f := fault{Kind: fk, At: k}
+					switch fk {
+					case "sticky-save":
+						// the k-th snapshot file this invocation tries to save cannot be saved at all
+						f = fault{Kind: "sticky", Op: "Save", Type: backend.SnapshotFile, At: k}
+					case "sticky-remove":
+						f = fault{Kind: "sticky", Op: "Remove", Type: backend.SnapshotFile, At: k}
+					}
 					_, err, _ := doOp(kind, target, f, 1000+k)
 					w.postRun()
 					if w.forcedFired == 0 {
